@@ -133,3 +133,27 @@ def run(ctx):
     # bulk derivation must not bypass what ckd refuses or computes (hardened refusal, invalid-key refusals)
     from .C01 import check_bulk
     check_bulk(ctx, 'C14.BULK(=C01)', kinds=('pub',))
+
+    # ---------------------------------------------------------------- class-level settings
+    # a lower-case class attribute holding True / False is a switch for the user.  Whatever its position, a watch-only wallet
+    # must reproduce the full wallet: the derivation rules of C02 (child wiring of both ckd, one-step projection) are decided
+    # again with every such switch a free boolean
+    from .. import evalr as _ev
+    settings = _ev.class_settings(p)
+    with ctx.obligation('C14.SETTINGS', 'class-level switches', None, 'btc_hd_wallet/') as ob:
+        ob.evaluations += 1
+        ob.saw('btc_hd_wallet/keys.py')
+        if not settings:
+            ob.note('no class-level boolean switch in the package')
+    if settings:
+        from . import C02
+        sub = ctx.__class__('C14', ctx.tier, ctx.p, ctx.seed)
+        _ev.Evaluator.SYMBOLIC_SETTINGS = True
+        try:
+            C02.run(sub)
+        finally:
+            _ev.Evaluator.SYMBOLIC_SETTINGS = False
+        for o in sub.obligations:
+            if o.rule.startswith('C02.') and not o.rule.startswith('C02.INVALID'):
+                o.rule = 'C14.SETTINGS(=%s, switches %s free)' % (o.rule, ', '.join(settings))
+                ctx.obligations.append(o)
